@@ -152,6 +152,43 @@ Proof.
   - apply sumf_ext. intros k Hk. apply pick_unique; [exact Hf | exact HD | apply HC; exact Hk].
 Qed.
 
+(* merging representatives of equal class keeps the weighted sum and the total *)
+Lemma wsum_absorb (f : A -> K) rc acc : (forall a b, cls a = cls b -> f a = f b) ->
+  wsum f (absorb cls beqb rc acc) = wsum f acc + nK (snd rc) * f (fst rc).
+Proof.
+  intro Hf. induction acc as [|[r c] t IH]; cbn [absorb].
+  - unfold wsum; cbn [sumf]. ring.
+  - destruct (beqb (cls r) (cls (fst rc))) eqn:E.
+    + apply beqb_spec in E. apply Hf in E. unfold wsum; cbn [sumf fst snd]. rewrite nK_add, E. ring.
+    + unfold wsum in *; cbn [sumf fst snd]. rewrite IH. ring.
+Qed.
+
+Lemma wsum_merge (f : A -> K) red : (forall a b, cls a = cls b -> f a = f b) ->
+  wsum f (merge cls beqb red) = wsum f red.
+Proof.
+  intro Hf. unfold merge.
+  assert (G : forall acc, wsum f (fold_left (fun acc rc => absorb cls beqb rc acc) red acc) = wsum f acc + wsum f red).
+  { induction red as [|rc red IH]; intro acc; cbn [fold_left].
+    - unfold wsum at 3; cbn [sumf]. ring.
+    - rewrite IH, (wsum_absorb f rc acc Hf). unfold wsum at 4; cbn [sumf]. unfold wsum. ring. }
+  rewrite G. unfold wsum at 1; cbn [sumf]. ring.
+Qed.
+
+Theorem valid_reduction2_integrates (f : A -> K) mesh red :
+  (forall a b, cls a = cls b -> f a = f b) ->
+  valid_reduction2b cls beqb mesh red = true -> wsum f red = sumf f mesh.
+Proof.
+  intros Hf H. unfold valid_reduction2b in H. apply andb_true_iff in H as [_ H].
+  rewrite <- (wsum_merge f red Hf). apply valid_reduction_integrates; assumption.
+Qed.
+
+Theorem valid_reduction2_positive mesh red : valid_reduction2b cls beqb mesh red = true ->
+  forall rc, In rc red -> 0 < snd rc.
+Proof.
+  intros H rc Hrc. unfold valid_reduction2b in H. apply andb_true_iff in H as [H _].
+  rewrite forallb_forall in H. apply Nat.ltb_lt. apply H. exact Hrc.
+Qed.
+
 Theorem valid_reduction_positive mesh red : valid_reductionb cls beqb mesh red = true ->
   forall rc, In rc red -> 0 < snd rc.
 Proof.
@@ -183,6 +220,13 @@ Theorem valid_reduction_total A B (cls : A -> B) beqb (beqb_spec : forall a b, b
   valid_reductionb cls beqb mesh red = true -> total red = length mesh.
 Proof.
   intro H. pose proof (valid_reduction_integrates A B cls beqb beqb_spec Zring (fun _ => 1%Z) mesh red (fun _ _ _ => eq_refl) H) as E.
+  rewrite wsum_one_total, sumf_one_length in E. lia.
+Qed.
+
+Theorem valid_reduction2_total A B (cls : A -> B) beqb (beqb_spec : forall a b, beqb a b = true <-> a = b) mesh red :
+  valid_reduction2b cls beqb mesh red = true -> total red = length mesh.
+Proof.
+  intro H. pose proof (valid_reduction2_integrates A B cls beqb beqb_spec Zring (fun _ => 1%Z) mesh red (fun _ _ _ => eq_refl) H) as E.
   rewrite wsum_one_total, sumf_one_length in E. lia.
 Qed.
 
@@ -265,15 +309,15 @@ Proof.
   destruct (negb (posdefb (m_Q k) && forallb (fun T => isometryb T (m_Q k)) (m_ops k))); [cbn; discriminate|].
   destruct (first_false (inBZb (m_Q k) (m_L k) (m_c2 k) (m_hmax k)) (m_full k) 0) eqn:E1; [cbn; discriminate|].
   destruct (first_false (fun rc => inBZb (m_Q k) (m_L k) (m_c2 k) (m_hmax k) (fst rc)) (m_red k) 0) eqn:E2; [cbn; discriminate|].
-  destruct (valid_reductionb (cls_min (m_ops k)) veqb (m_full k) (m_red k)) eqn:E3; [|cbn; discriminate].
+  destruct (valid_reduction2b (cls_min (m_ops k)) veqb (m_full k) (m_red k)) eqn:E3; [|cbn; discriminate].
   intros _. split; [|split; [|split]].
   - intros n [Hn|Hn] h.
     + apply (inBZb_sound _ _ _ _ _ (first_false_none _ _ _ E1 n Hn)).
     + apply in_map_iff in Hn as (rc & E & Hrc). subst n.
       apply (inBZb_sound _ _ _ _ _ (first_false_none _ _ _ E2 rc Hrc)).
-  - apply (valid_reduction_positive V3 V3 (cls_min (m_ops k)) veqb (m_full k) (m_red k) E3).
-  - apply (valid_reduction_total V3 V3 (cls_min (m_ops k)) veqb veqb_eq (m_full k) (m_red k) E3).
-  - intros K f Hf. apply (valid_reduction_integrates V3 V3 (cls_min (m_ops k)) veqb veqb_eq K f (m_full k) (m_red k) Hf E3).
+  - apply (valid_reduction2_positive V3 V3 (cls_min (m_ops k)) veqb (m_full k) (m_red k) E3).
+  - apply (valid_reduction2_total V3 V3 (cls_min (m_ops k)) veqb veqb_eq (m_full k) (m_red k) E3).
+  - intros K f Hf. apply (valid_reduction2_integrates V3 V3 (cls_min (m_ops k)) veqb veqb_eq K f (m_full k) (m_red k) Hf E3).
 Qed.
 
 (* orbit-invariant functions are constant on the classes of cls_min when the operations are closed
